@@ -340,6 +340,9 @@ func (c *Cond) real() *sync.Cond {
 // Wait atomically unlocks c.L and suspends the goroutine.
 func (c *Cond) Wait() {
 	if simrt.Active() && !simrt.Aborting() {
+		// as in the runtime: join the wait queue first, then unlock, then sleep - a
+		// notification that arrives in between is not lost
+		simrt.CondAdd(unsafe.Pointer(c))
 		c.L.Unlock()
 		simrt.Point(simrt.OpCondWait, unsafe.Pointer(c), 0)
 		c.L.Lock()
